@@ -81,6 +81,9 @@ func mutateExt(r *Rng, kind string, honest []byte, c *Chain) []byte {
 }
 
 // tamperInjected mutates the injected transaction (Txs[0]); returns the new bytes and whether the bridge data differs
+// opOfCons resolves a consensus address to the validator's operator address (for forged entries); set by the runner
+var opOfCons func(cons []byte) string
+
 func tamperInjected(r *Rng, kind string, inj []byte) ([]byte, bool) {
 	var tx app.VoteExtTx
 	if err := json.Unmarshal(inj, &tx); err != nil {
@@ -100,6 +103,40 @@ func tamperInjected(r *Rng, kind string, inj []byte) ([]byte, bool) {
 		return string(b)
 	}
 	switch kind {
+	case "nil_ext_valsig", "nil_ext_att", "nil_ext_init":
+		// a deviating proposer relabels one vote outside the signed > 2/3 as nil, attaches an unsigned forged extension to it
+		// and lists the forged data under that validator, exactly as a derivation that ignored the vote flag would
+		votes := tx.ExtendedCommitInfo.Votes
+		if len(votes) >= 4 && opOfCons != nil {
+			i := len(votes) - 1 // the weakest voter: the others still hold more than 2/3
+			op := opOfCons(votes[i].Validator.Address)
+			if op != "" {
+				ve := app.BridgeVoteExtension{}
+				switch kind {
+				case "nil_ext_valsig":
+					ve.ValsetSignature = app.BridgeValsetSignature{Signature: rndBytes(r, 65), Timestamp: 1700000000000}
+					tx.ValsetSigs.OperatorAddresses = append(tx.ValsetSigs.OperatorAddresses, op)
+					tx.ValsetSigs.Timestamps = append(tx.ValsetSigs.Timestamps, 1700000000000)
+					tx.ValsetSigs.Signatures = append(tx.ValsetSigs.Signatures, hex.EncodeToString(ve.ValsetSignature.Signature))
+				case "nil_ext_att":
+					a := app.OracleAttestation{Snapshot: rndBytes(r, 32), Attestation: rndBytes(r, 65)}
+					ve.OracleAttestations = []app.OracleAttestation{a}
+					tx.OracleAttestations.OperatorAddresses = append(tx.OracleAttestations.OperatorAddresses, op)
+					tx.OracleAttestations.Attestations = append(tx.OracleAttestations.Attestations, a.Attestation)
+					tx.OracleAttestations.Snapshots = append(tx.OracleAttestations.Snapshots, a.Snapshot)
+				default:
+					ve.ValsetSignature = app.BridgeValsetSignature{Signature: rndBytes(r, 64), Timestamp: 1}
+					tx.ValsetSigs.OperatorAddresses = append(tx.ValsetSigs.OperatorAddresses, op)
+					tx.ValsetSigs.Timestamps = append(tx.ValsetSigs.Timestamps, 1)
+					tx.ValsetSigs.Signatures = append(tx.ValsetSigs.Signatures, hex.EncodeToString(ve.ValsetSignature.Signature))
+				}
+				bz, _ := json.Marshal(ve)
+				votes[i].BlockIdFlag = cmtproto.BlockIDFlagNil
+				votes[i].VoteExtension = bz
+				votes[i].ExtensionSignature = nil
+				changed = true
+			}
+		}
 	case "op_drop":
 		if n := len(tx.OpAndEVMAddrs.OperatorAddresses); n > 0 {
 			tx.OpAndEVMAddrs.OperatorAddresses = tx.OpAndEVMAddrs.OperatorAddresses[:n-1]
@@ -327,6 +364,14 @@ func runProposalHist(t *testing.T, in []string) string {
 	}
 	defer c.Close()
 	h := NewHist(c)
+	opOfCons = func(cons []byte) string {
+		for _, v := range c.Vals {
+			if string(v.ConsAddr) == string(cons) {
+				return v.ValAddr.String()
+			}
+		}
+		return ""
+	}
 	r := NewRng(uint64(len(in[1])))
 	var ks []string
 	for _, v := range c.Vals {
@@ -419,7 +464,7 @@ func genProposalHist(r *Rng, i int, tier string) []string {
 	add := func(s string, a ...any) { steps = append(steps, fmt.Sprintf(s, a...)) }
 	extKinds := []string{"empty", "null", "nullfields", "garbage", "trunc", "wrongshape", "initsig0", "initsig1", "initsig63", "initsig64", "initsig65", "initsig66",
 		"valsig0", "valsig63", "valsig64", "valsig65", "valsig66", "valsigbadts", "extraatt", "dupatt", "foreignatt", "emptyatt"}
-	tampers := []string{"op_drop", "op_dup", "op_add", "evm_change", "op_swap", "vs_sig_change", "vs_ts_change", "vs_op_change", "vs_add", "att_change", "att_drop", "att_add", "snap_change", "commit_ext_change", "garbage", "height"}
+	tampers := []string{"nil_ext_valsig", "nil_ext_att", "nil_ext_valsig", "op_drop", "op_dup", "op_add", "evm_change", "op_swap", "vs_sig_change", "vs_ts_change", "vs_op_change", "vs_add", "att_change", "att_drop", "att_add", "snap_change", "commit_ext_change", "garbage", "height"}
 	add("blk 1000")
 	// the first blocks decide who registers an EVM address: hostile extensions early keep some validators unregistered
 	nblocks := 12 + r.Intn(20)
